@@ -37,8 +37,8 @@ func (s c06Step) msg(i int) p9p.Message {
 }
 
 func c06Msg(i, kind int) p9p.Message {
-	// the eight request kinds whose replies can carry the request's identity
-	switch kind % 8 {
+	// the nine request kinds whose replies can carry the request's identity
+	switch kind % 9 {
 	case 0:
 		return p9p.MessageTread{Fid: p9p.Fid(i), Offset: uint64(i) << 40, Count: 9}
 	case 1:
@@ -53,6 +53,9 @@ func c06Msg(i, kind int) p9p.Message {
 		return p9p.MessageTcreate{Fid: p9p.Fid(i), Name: "n", Perm: 0644, Mode: p9p.OWRITE}
 	case 6:
 		return p9p.MessageTattach{Fid: p9p.Fid(i), Afid: p9p.NOFID, Uname: "u", Aname: "a"}
+	case 8:
+		// a version request in the middle of a session is a request like any other
+		return p9p.MessageTversion{MSize: uint32(5000 + i), Version: "9P2000"}
 	}
 	return p9p.MessageTauth{Afid: p9p.Fid(i), Uname: "u", Aname: "a"}
 }
@@ -351,7 +354,7 @@ func c06Scenarios() []*explore.Scenario {
 	}
 	// the same two-request plans with the other request kinds (walk, open,
 	// create, attach, auth): a dispatch loop may treat a kind specially
-	for _, off := range []int{3, 5, 7} {
+	for _, off := range []int{3, 5, 7, 8} {
 		for _, p := range c06Plans(2) {
 			q := append([]c06Step{}, p...)
 			for i := range q {
